@@ -254,8 +254,8 @@ def execute_direct(plan: dict, ch):
             sizes = [len(f) for f in frames]
             if b"".join(frames) != payload:
                 ctx.violate("C05.outbound-content", "direct", f"{n}-byte payload: frames {sizes} do not carry the payload")
-            elif sizes != [1024] * (n // 1024) + ([n % 1024] if n % 1024 else []):
-                ctx.violate("C05.frame-size", "direct", f"{n}-byte payload sent as frames {sizes[:8]} (not maximal 1024-byte frames + remainder)")
+            elif any(z > 1024 or z == 0 for z in sizes):
+                ctx.violate("C05.frame-size", "direct", f"{n}-byte payload sent as frames of {sizes[:8]} plaintext bytes (allowed: 1..1024)")
             elif len(tr.calls) - k0 > 1:
                 ctx.violate("C09.single-call", "direct", f"{n}-byte payload written with {len(tr.calls) - k0} transport calls")
         ctx.probe("direct_outbound_payloads", len(lengths))
